@@ -974,7 +974,7 @@ def install(prog):
         l[sl.lo:sl.hi] = l[sl.lo:sl.hi][::-1]
         return UNIT
 
-    @M(r'<\[.*\] as Index<(?:std::ops::)?(RangeTo|RangeFrom|Range|RangeFull|RangeInclusive|RangeToInclusive)<usize>>>::index(_mut)?|<Vec<.*> as Index<(?:std::ops::)?(RangeTo|RangeFrom|Range|RangeFull|RangeInclusive|RangeToInclusive)<usize>>>::index(_mut)?')
+    @M(r'<\[.*\] as Index(?:Mut)?<(?:std::ops::)?(RangeTo|RangeFrom|Range|RangeFull|RangeInclusive|RangeToInclusive)<usize>>>::index(_mut)?|<Vec<.*> as Index(?:Mut)?<(?:std::ops::)?(RangeTo|RangeFrom|Range|RangeFull|RangeInclusive|RangeToInclusive)<usize>>>::index(_mut)?')
     def _(it, m, a):
         sl = as_slice(it, a[0]); r = a[1]
         n = len(sl)
@@ -998,7 +998,7 @@ def install(prog):
         if hi > n: raise Panic('range end index %d out of range for slice of length %d' % (hi, n), 'slice')
         return SliceRef(sl.lref, sl.lo + lo, sl.lo + hi)
 
-    @M(r'<Vec<.*> as Index<usize>>::index(_mut)?|<\[.*\] as Index<usize>>::index(_mut)?')
+    @M(r'<Vec<.*> as Index(?:Mut)?<usize>>::index(_mut)?|<\[.*\] as Index(?:Mut)?<usize>>::index(_mut)?')
     def _(it, m, a):
         sl = as_slice(it, a[0]); i = a[1]
         if is_sym(i):
